@@ -87,6 +87,11 @@ CLAIMED = {
          "k goroutines each run a random sequence from the menu of exported methods of Conn (+ Batches shared between goroutines, also after Close), Writer (WriteMessages/Stats/Close under the C01 fault scripts), Reader with and without group (FetchMessage/ReadMessage/CommitMessages/SetOffset/Offset/Lag/Stats/Close under cuts and error codes), Client and Transport (8 Client methods, raw RoundTrips of 23 APIs, CloseIdleConnections, short idle and metadata TTLs), every built-in Balancer and every compression codec from 32 goroutines. Every deduplicated report in which kafka-go code takes part is a violation. Held on the executions run: the detector only sees accesses that were executed.",
          "trusted: the Go race detector (no false positives; misses races between accesses that did not both execute); reports whose two accesses are both harness code fail the run as a harness error; the Transport Resolver path and Reader.SetOffsetAt/ReadLag/Config are not driven",
          "DESIGN.md section 5 C10"),
+ "C19": ("exploration",
+         "runtime differential oracle: every value returned by the offset and metadata queries of kafka.Conn and kafka.Client is compared with the generated cluster state installed in the fake cluster (the oracle recomputes expected values from the state, not from the fake brokers' answers); one injected per-partition failure per case",
+         "Per case a random static cluster state (1-5 brokers with racks and version caps, 1-4 topics x 1-8 partitions over several leaders, replica/ISR/offline lists incl. ids missing from the broker list, logs with start != 0, empty logs, gaps, timestamp ties, committed offsets per group) is installed, then Conn.ReadFirstOffset/ReadLastOffset/ReadOffsets/ReadOffset(t), a Seek sequence against a model of the documented whence modes, ReadPartitions, Brokers, Controller, and Client.ListOffsets (spanning topics x partitions x leaders), Metadata, OffsetFetch, OffsetCommit, ConsumerOffsets are run and compared field by field; then one partition gets an error code / is unknown / has an unreachable leader: it must carry an error and every other partition must be reported as in the state.",
+         "trusted: the state generator and the fake brokers' lookup rules (recomputed independently by the oracle); order of partitions/topics/brokers in a result is not part of the claim; ConsumerOffsets, which has no per-partition error slot, may fail the call, omit the partition or return the true offset",
+         "DESIGN.md section 5 C19"),
  "C20": ("exploration",
          "runtime monitor in child processes (RLIMIT_AS 4 GiB, one decode at a time): process liveness, recovered panics, allocation accounting (runtime/metrics heap allocs, confirmed by an exact second decode) and outcome class for systematically mutated well-formed response frames through protocol.ReadResponse and through kafka.Client over the fake network",
          "For every response type and version (reference-encoded with a field map where a schema exists, library-encoded otherwise) every length/count field - frame size, string/bytes/array lengths fixed and compact, tagged-field counts and sizes, record-set size, batch length, message size, wrapper value length, record count and varint lengths - is set to -1, -2, 0, len-1, len+1, remaining+1, 2^15-1, 2^31-1, -2^31 and for varints 2^31, 2^32, 2^63, 2^64-1 and an unterminated varint; the decode must end as an error or a message, without panic or process death, allocating at most 1 MiB + 64 x frame length. CRC-covered fields with a recomputed CRC are informational.",
